@@ -31,9 +31,9 @@ func vU(i int) string {
 	case 7:
 		return "/l[k=1]/k"
 	case 8:
-		return "/t[a=1][b=2]/x"
+		return "/t[a=1][b=q/r]/x"
 	case 9:
-		return "/t[a=1][b=3/4]/x"
+		return "/t[a=1][b=Q/r]/x"
 	case 10:
 		return "/l[k=1]"
 	}
@@ -289,8 +289,8 @@ func VerifC18Tree() {
 		verifrt.Assert(xs10 == vVal(6), "list-leaf-value")
 	}
 	// two-key list: entries (1,2) and (1,3) share one key value and must stay apart
-	n12, e12, tot2 := vEntries(root, "t", "a", "1", "b", "2")
-	n13, e13, _ := vEntries(root, "t", "a", "1", "b", "3/4")
+	n12, e12, tot2 := vEntries(root, "t", "a", "1", "b", "q/r")
+	n13, e13, _ := vEntries(root, "t", "a", "1", "b", "Q/r")
 	w12, w13 := 0, 0
 	if in.live(8) {
 		w12 = 1
